@@ -829,7 +829,11 @@ func (rr *runRec) containerOptions() []mpb.ContainerOption {
 		rr.uwg = new(sync.WaitGroup)
 		opts = append(opts, mpb.WithWaitGroup(rr.uwg))
 	}
-	opts = append(opts, mpb.WithDebugOutput(lockedBuf{rr}))
+	if sc.NilDbg {
+		opts = append(opts, mpb.WithDebugOutput(nil))
+	} else {
+		opts = append(opts, mpb.WithDebugOutput(lockedBuf{rr}))
+	}
 	return opts
 }
 
